@@ -87,6 +87,16 @@ EntCore(x) == [p |-> x.p, ex |-> x.ex, md |-> [c |-> x.md.c, k |-> x.md.k, len |
                ls |-> [c |-> x.ls.c, v |-> x.ls.v], op |-> x.op.c, rd |-> x.rd, rts |-> [c |-> x.rts.c, same |-> x.rts.same]]
 ObsCore(o) == [ents |-> [i \in DOMAIN o.ents |-> EntCore(o.ents[i])],
                walk |-> [c |-> o.walk.c, nerr |-> o.walk.nerr, v |-> {o.walk.v[i] : i \in DOMAIN o.walk.v}]]
+\* C02 compares classes only up to {ok, not-found, other error}, and not-found only where the properties
+\* pin it (entry missing from an EXISTING DIRECTORY); message texts and I/O error kinds aside
+Cls3(c, pin) == IF c \in {"ok", "skip"} THEN c ELSE IF pin /\ c = "notfound" THEN c ELSE "error"
+EntAgree(x, pin) == [p |-> x.p, ex |-> x.ex, md |-> [c |-> Cls3(x.md.c, pin), k |-> x.md.k, len |-> x.md.len], isf |-> x.isf, isd |-> x.isd,
+                     ls |-> [c |-> Cls3(x.ls.c, pin), v |-> x.ls.v], op |-> Cls3(x.op.c, pin), rd |-> [c |-> Cls3(x.rd.c, pin), v |-> x.rd.v],
+                     rts |-> [c |-> Cls3(x.rts.c, pin), same |-> x.rts.same]]
+ObsAgree(a, b) == LET t == TreeOfObs(a)
+                      pin(x) == x.p = Root \/ IsDirAt(t, Parent(x.p)) IN
+                  /\ [i \in DOMAIN a.ents |-> EntAgree(a.ents[i], pin(a.ents[i]))] = [i \in DOMAIN b.ents |-> EntAgree(b.ents[i], pin(a.ents[i]))]
+                  /\ Cls3(a.walk.c, TRUE) = Cls3(b.walk.c, TRUE) /\ a.walk.nerr = b.walk.nerr /\ Range(a.walk.v) = Range(b.walk.v)
 OutsideCore(snap, P) ==
   {[p |-> snap[i].p, k |-> snap[i].k, d |-> snap[i].d] : i \in {j \in DOMAIN snap : ~StrictPrefix(P, snap[j].p)}}
   \cup {[p |-> snap[i].p, mo |-> snap[i].mo] : i \in {j \in DOMAIN snap : ~Related(P, snap[j].p)}}
@@ -150,6 +160,14 @@ BadCall(e, r) ==
   \cup (IF cfg.kind = "ovl" /\ "layers" \in DOMAIN e
           THEN (IF LowerUnchanged(e) THEN {} ELSE {"lower"}) \cup (IF ObserversPure(e) THEN {} ELSE {"pure"})
           ELSE {})
+  \* C02: the lock-step partner (the same call on the other backend) agrees on success/failure, on the
+  \* not-found and already-exists classes, and on the complete observable tree and bytes
+  \cup (IF "other" \in DOMAIN e /\ twinsync /\ r.allowed # AnyErr \cup {"ok"} /\ e.op # "set_time"
+          /\ ~(/\ (e.other.res.c = "ok") = (e.res.c = "ok")
+               /\ (Cardinality(r.allowed) = 1 => e.other.res.c = e.res.c)       \* pinned classes: not-found, file-/dir-exists
+               /\ e.other.res.val = e.res.val
+               /\ ObsAgree(o, e.other.obs))
+        THEN {"agree"} ELSE {})
   \cup (IF cfg.kind = "alt" /\ "twin" \in DOMAIN e
           THEN (IF Confined(e, cfg.prefix) THEN {} ELSE {"confined"})
                \cup (IF OutsideCore(e.outside, cfg.prefix) = outs THEN {} ELSE {"outside"})
@@ -185,7 +203,7 @@ TrSegInit ==
                 prefix |-> IF "prefix" \in DOMAIN e THEN e.prefix ELSE <<>>]
      /\ lay' = IF isovl THEN e.layers ELSE <<>>
      /\ outs' = IF isalt THEN OutsideCore(e.outside, e.prefix) ELSE {}
-     /\ twinsync' = (isalt /\ ObsCore(e.twinobs) = ObsCore(o))
+     /\ twinsync' = ((isalt /\ ObsCore(e.twinobs) = ObsCore(o)) \/ ("other" \in DOMAIN e /\ ObsAgree(o, e.other.obs)))
      /\ pwo' = IF isovl /\ "wo" \in DOMAIN e THEN {x \in Range(e.wo) : x \in Universe} ELSE {}
      /\ tainted' = (bad # {})
      /\ seg' = seg + 1
@@ -205,7 +223,8 @@ TrCall ==
      /\ outs' = IF cfg.kind = "alt" /\ "outside" \in DOMAIN e THEN OutsideCore(e.outside, cfg.prefix) ELSE outs
      \* once the two worlds have diverged (possible without a violation after an unspecified transfer)
      \* the twin comparison is suspended for the rest of the segment
-     /\ twinsync' = (twinsync /\ cfg.kind = "alt" /\ "twin" \in DOMAIN e /\ ObsCore(e.twin.obs) = ObsCore(e.obs))
+     /\ twinsync' = (twinsync /\ ((cfg.kind = "alt" /\ "twin" \in DOMAIN e /\ ObsCore(e.twin.obs) = ObsCore(e.obs))
+                                    \/ ("other" \in DOMAIN e /\ ObsAgree(e.obs, e.other.obs))))
      /\ pwo' = IF cfg.kind = "ovl" /\ "wo" \in DOMAIN e THEN {x \in Range(e.wo) : x \in Universe} ELSE pwo
      /\ (IF cfg.kind = "ovl" /\ "wo" \in DOMAIN e /\ lay # <<>> /\ e.op \in OvlOps /\ ~tainted /\ bad = {} /\ Drifted(e)
          THEN Report("DRIFT", [l |-> l, seg |-> seg, op |-> e.op, cfg |-> cfg.name, model |-> "Overlay"]) ELSE TRUE)
